@@ -268,7 +268,7 @@ def replay(case, lib, inputs, free, label):
                     if kind == 'r': I[spec] = Rat(Fraction(float(inputs[spec][0])))
         if any(v is None for k, vs in O.items() if isinstance(vs, list) for v in vs):
             return True, {'outputs': 'non-finite output from the real code', 'label': label}
-        X = Ctx(None, None, model=free, conc=True)
+        X = Ctx(None, None, model=free, conc=True); X.lib = lib; X.T = case.T
         S.TOL[0] = Fraction(1, 10 ** 9) if case.T == 'd' else Fraction(1, 10 ** 4)
         try:
             cls = _claims(case, I, O, X)
